@@ -64,6 +64,16 @@ $(B)/asan/cvdrive: $(B)/asan/eng_cvdrive.o $(B)/asan/eng_vproxy.o $(B)/asan/libc
 $(B)/tsan/cvdrive: $(B)/tsan/eng_cvdrive.o $(B)/tsan/eng_vproxy.o $(B)/tsan/libcolvars.a
 	$(CXX_TSAN) -fsanitize=thread -pthread -o $@ $(B)/tsan/eng_cvdrive.o $(B)/tsan/eng_vproxy.o $(B)/tsan/libcolvars.a
 
+# rapidcheck targets (direct API)
+RCH := /verif/rc/rc_common.h
+$(B)/rel/rc_%: /verif/rc/rc_%.cpp $(RCH) $(ENGH) $(B)/rel/eng_vproxy.o $(B)/rel/libcolvars.a
+	$(CXX_REL) -std=c++14 -O1 -g0 $(GUARD) -I$(SRCDIR) -I$(ENG) -I/verif/rc -pthread -o $@ $< $(B)/rel/eng_vproxy.o $(B)/rel/libcolvars.a -lrapidcheck
+
+# libFuzzer targets
+FZH := $(wildcard /verif/fuzz/*.h)
+$(B)/asan/fuzz_%: /verif/fuzz/fuzz_%.cpp $(FZH) $(ENGH) $(B)/asan/eng_vproxy.o $(B)/asan/libcolvars.a
+	$(CXX_ASAN) -std=c++17 -O1 -g1 -fsanitize=fuzzer,address,undefined -fno-sanitize-recover=undefined $(GUARD) -I$(SRCDIR) -I$(ENG) -I/verif/fuzz -pthread -o $@ $< $(B)/asan/eng_vproxy.o $(B)/asan/libcolvars.a
+
 clean:
 	rm -rf $(B)
 
